@@ -146,6 +146,8 @@ class PoolHarness(object):
                         h.gates[task.tid].wait()
                 elif task.kind == "raise":
                     raise task.exc
+                elif task.kind == "exit":
+                    raise SystemExit("task %s exits its thread" % task.tid)
                 return task.ret_obj
             finally:
                 h.inside -= 1
@@ -254,6 +256,11 @@ class PoolHarness(object):
                 self.bad("C11", "C11/untimed-join-returned-false", "join() returned %r" % (r,))
         elif name == "sleep":
             s.sleep(op[1])
+        elif name == "settle":
+            # wait until every other thread is finished or blocked (e.g. a worker taken down by SystemExit has fully gone)
+            me = s.cur
+            s.point("settle")
+            s.block(lambda: all(t is me or not s._enabled(t) for t in s.threads), None, "settle")
         elif name == "spawn":
             self.sub_thread = sched.MThread(target=self.run_sub, name="submitter")
             self.sub_thread.start()
@@ -346,7 +353,7 @@ class PoolHarness(object):
                 self.bad("C09", "C09/program-does-not-terminate", "controller stuck in %s (status %s); threads %r" % (where, s.status, threads))
             return (("stuck", where, s.status), self.tag())
         for t in s.threads:
-            if t.exc is not None:
+            if t.exc is not None and not isinstance(t.exc, SystemExit):
                 for p in ("C09", "C11"):
                     self.bad(p, "%s/thread-died-%s" % (p, type(t.exc).__name__), "thread %s died with %r" % (t.name, t.exc))
         running_at_end = self.phase == "running"
@@ -364,6 +371,8 @@ class PoolHarness(object):
                 self.bad(prop, "%s/accepted-task-not-executed" % prop,
                          "task %s (accepted in phase %s) executed %d times although the pool is running and was not stopped after its enqueue"
                          % (tid, getattr(t, "phase_at_enq", "?"), t.execs))
+            if t.kind == "exit":
+                continue  # a task that raises SystemExit: only termination of join()/stop() is judged (C11)
             if t.execs and t.exited:
                 try:
                     done = t.future.done()
@@ -479,6 +488,10 @@ CURATED = {
     "P21-stop-with-join-racing": ([("start",), ("enq", "ret"), ("spawn",), ("stop",), ("joinsub",)], [("join", BIG)]),
     "P22-backlog-then-chain": ([("enq", "ret"), ("enq", "ret"), ("enq", "ret"), ("start",), ("join", BIG), ("sleep", 61), ("chain", 0, 2), ("chain", 1, 2), ("result", "c3", BIG)], None),
     "P23-chain3": ([("start",), ("chain", 0, 3), ("chain", 1, 3), ("chain", 2, 3), ("result", "c0", BIG)], None),
+    # a task raising SystemExit takes its worker thread down; only histories in which nothing else is queued at that
+    # moment are judged (what happens to tasks stranded behind it is outside the properties' "failing task")
+    "P31-task-raises-SystemExit": ([("start",), ("enq", "exit"), ("join", BIG), ("settle",), ("enq", "ret"), ("result", "c1", BIG), ("join", None), ("stop",)], None),
+    "P32-SystemExit-then-restart": ([("start",), ("enq", "exit"), ("join", BIG), ("settle",), ("stop",), ("start",), ("enq", "ret"), ("join", None), ("stop",)], None),
     "P29-stop-while-busy-then-restart": ([("start",), ("enq", "gated"), ("spawn",), ("stop",), ("joinsub",), ("start",), ("enq", "ret"), ("result", "c1", BIG)],
                                          [("open", "c0")]),
     "P30-stop-while-busy-restart-chain": ([("start",), ("enq", "gated"), ("spawn",), ("stop",), ("joinsub",), ("start",), ("chain", 0, 2), ("chain", 1, 2),
